@@ -39,7 +39,9 @@ def eval_img(t, env, opname, sign):
         return t[1]
     if k == 'sym':
         if t[1] == 'k':
-            raise NotParametric('scalar used outside the operator')
+            if sign is None:
+                raise NotParametric('scalar used outside the operator')
+            return ('scalar', sign)
         return ('raw', env[t[1]])
     if k == 'op':
         n = t[1]
@@ -47,6 +49,8 @@ def eval_img(t, env, opname, sign):
             if n != opname:
                 raise NotParametric('operator %s inside %s' % (n, opname))
             return ('img', direction(opname, sign) * env[t[2][0][1]])
+        if n == 'zero' and not t[2]:
+            return ('scalar', 0)
         if n == 'neg' and t[2][0][0] == 'sym':
             if opname != 'neg':
                 raise NotParametric('negation inside %s' % opname)
